@@ -1113,9 +1113,85 @@ impl Visitor<Diagnostic> for LibraryRenderer {
         self.write_ws(":");
         self.visit_id(&node.type_name)?;
 
+        if !node.fb_tasks.is_empty() || !node.sources.is_empty() || !node.sinks.is_empty() {
+            self.write_ws("(");
+            let mut first = true;
+            for fb_task in node.fb_tasks.iter() {
+                if !first {
+                    self.write_ws(",");
+                }
+                first = false;
+                self.visit_function_block_task(fb_task)?;
+            }
+            for source in node.sources.iter() {
+                if !first {
+                    self.write_ws(",");
+                }
+                first = false;
+                self.visit_program_connection_source(source)?;
+            }
+            for sink in node.sinks.iter() {
+                if !first {
+                    self.write_ws(",");
+                }
+                first = false;
+                self.visit_program_connection_sink(sink)?;
+            }
+            self.write_ws(")");
+        }
+
         self.write_ws(";");
         self.newline();
 
+        Ok(())
+    }
+
+    // 2.7.2
+    fn visit_function_block_task(
+        &mut self,
+        node: &dsl::configuration::FunctionBlockTask,
+    ) -> Result<Self::Value, Diagnostic> {
+        self.visit_id(&node.fb_name)?;
+        self.write_ws("WITH");
+        self.visit_id(&node.task_name)
+    }
+
+    // 2.7.2
+    fn visit_program_connection_source(
+        &mut self,
+        node: &dsl::configuration::ProgramConnectionSource,
+    ) -> Result<Self::Value, Diagnostic> {
+        self.visit_symbolic_variable_kind(&node.dst)?;
+        self.write_ws(":=");
+        self.visit_program_connection_source_kind(&node.src)
+    }
+
+    // 2.7.2
+    fn visit_program_connection_sink(
+        &mut self,
+        node: &dsl::configuration::ProgramConnectionSink,
+    ) -> Result<Self::Value, Diagnostic> {
+        self.visit_symbolic_variable_kind(&node.src)?;
+        self.write_ws("=>");
+        self.visit_program_connection_sink_kind(&node.dst)
+    }
+
+    // 2.7.2
+    fn visit_global_var_reference(
+        &mut self,
+        node: &dsl::configuration::GlobalVarReference,
+    ) -> Result<Self::Value, Diagnostic> {
+        if let Some(resource_name) = &node.resource_name {
+            self.visit_id(resource_name)?;
+            self.write(".");
+            self.write(node.global_var_name.original().as_str());
+        } else {
+            self.visit_id(&node.global_var_name)?;
+        }
+        if let Some(structure_element_name) = &node.structure_element_name {
+            self.write(".");
+            self.write(structure_element_name.original().as_str());
+        }
         Ok(())
     }
 
